@@ -24,19 +24,19 @@ CHECKS = {
         design_ref="DESIGN.md 6/C01", note=TRUST),
     "C02": dict(
         technique="runtime monitoring: differential oracle - every recorded result of the real code compared byte-for-byte with an independent executable RFC 9180 (both directions)",
-        text="Exploration with an independent reference: all 48 suites x 4 modes, impl-as-sender under scripted RNG bytes and reference-as-sender transcripts, both single-shot forms, argument-aliasing sessions (info = psk_id, randomness that derives a key already in play, enc = pkR, ...), length sweeps 0..2200 of exporter context / info / psk / psk_id / aad, 300-message (thorough 70 000) sessions; on the overflow-checked and the release build. Any symmetric change to labels, ids, orders, mode bytes or nonce layout shows up as a byte difference. The reference is anchored on published vectors at the start of each run.",
+        text="Exploration with an independent reference: all 48 suites x 4 modes, impl-as-sender under scripted RNG bytes and reference-as-sender transcripts, both single-shot forms, argument-aliasing sessions (info = psk_id, randomness that derives a key already in play, enc = pkR, ...), length sweeps 0..2200 of exporter context / info / psk / psk_id / aad, 300-message (thorough 70 000) sessions; on the overflow-checked and the release build (thorough: also at opt-level 0, 1, s, z and with target-cpu=native). Any symmetric change to labels, ids, orders, mode bytes or nonce layout shows up as a byte difference. The reference is anchored on published vectors at the start of each run.",
         design_ref="DESIGN.md 3, 6/C02", note=TRUST),
     "C03": dict(
         technique="runtime monitoring: differential oracle for the KEM layer (DeriveKeyPair/GenerateKeyPair/Encap/Decap/Auth variants) against the reference, with directed rare-event inputs",
-        text="Exploration: 4 KEMs, ikm lengths 0..65536, degenerate ikm, plain and authenticated encap/decap (incl. mismatched identity pairs, enc = pkR), decap of reference encapsulations; directed rare events: three precomputed ikm values drive the P-256 rejection-sampling retry path (2^-32), peers constructed so that the DH value has x = 0 / leading zero bytes (NIST) or one of 26 zero-byte patterns (X25519), private keys sharing long prefixes used back to back; on checked, release and std builds.",
-        design_ref="DESIGN.md 6/C03", note=TRUST + " The P-384/P-521 retry path is unreachable (p < 2^-190)."),
+        text="Exploration: 4 KEMs, ikm lengths 0..65536, degenerate ikm, plain and authenticated encap/decap (incl. mismatched identity pairs, enc = pkR), decap of reference encapsulations; directed rare events: three precomputed ikm values drive the P-256 rejection-sampling retry path (2^-32), peers constructed so that the DH value has x = 0 / leading zero bytes (NIST) or one of 26 zero-byte patterns (X25519), private keys sharing long prefixes used back to back; on checked, release and std builds. DeriveKeyPair's candidate loop is additionally driven with a steerable hash plugged into the crate's generic code through a cfg(hpke_verif) hook (rejection runs of every length up to 255, all 256 rejected, candidates around n, P-521 high bits on every iteration), against a generic HKDF reference over the same function.",
+        design_ref="DESIGN.md 6/C03", note=TRUST + " With the KEM's own hash the P-384/P-521 retry path is unreachable (p < 2^-190); it is exercised with a KDF other than the KEM's."),
     "C04": dict(
         technique="runtime monitoring: abstract state machine (counter + latch) stepped in lock-step with the real sender context; every ciphertext recomputed with OpenSSL under the model's nonce; sort-based nonce-reuse detector over bursts",
-        text="Exploration of the 2^64 counter space by structure: a full prefix (2^20 quick / 2^24 thorough seals per AEAD) for uniqueness, every byte-carry boundary, the last values before and after exhaustion, seeded random positions, arbitrary call histories on dead contexts; thorough: 64.5 GiB through one context per AEAD and the raw-key workload interpreted by Miri for a 32-bit (i686) and a big-endian (s390x) target. Contexts are built from raw key material through a cfg(hpke_verif) hook so the monitor does not depend on the key schedule.",
+        text="Exploration of the 2^64 counter space by structure: a full prefix (2^20 quick / 2^24 thorough seals per AEAD) for uniqueness, every byte-carry boundary, the last values before and after exhaustion, seeded random positions, arbitrary call histories on dead contexts; thorough: 64.5 GiB through one context per AEAD and the raw-key workload interpreted by Miri for a 32-bit (i686), a big-endian (s390x) and a non-x86 little-endian (aarch64) target, and positions at opt-level 0, 1, s, z and target-cpu=native. Seals that fail (SealError) are driven with a mock AEAD implementing the crate's public Aead trait whose tag echoes the nonce: a failed seal must not consume a sequence number. Contexts are built from raw key material through a cfg(hpke_verif) hook so the monitor does not depend on the key schedule.",
         design_ref="DESIGN.md 6/C04", note=TRUST + " Positions beyond the burst prefix are reached with the set_seq hook."),
     "C05": dict(
         technique="runtime monitoring: offline checker of recorded delivery histories against an abstract receiver model (position + latch); acceptance decided from recorded bytes only",
-        text="Exploration of adversarial histories (next/replay/future/bit-flips/truncation/extension/garbage/mixed tag/alias replays at p + k*2^(8j), both APIs, positions 0, random, byte carries, 2^64-3.. across exhaustion), a run of 66 000+ rejected deliveries on one context, on checked and release builds; thorough: alias replays under Miri for i686 and s390x. Found F1 (open() on an exhausted context answered short inputs with OpenError), fixed in /repo 7e92e6f.",
+        text="Exploration of adversarial histories (next/replay/future/bit-flips/truncation/extension/garbage/mixed tag/alias replays at p + k*2^(8j), both APIs, positions 0, random, byte carries, 2^64-3.. across exhaustion), a run of 66 000+ rejected deliveries on one context, on checked and release builds; genuine AES-GCM messages constructed to carry chosen tag values (all-zero, all-FF, ...) must be accepted; thorough: alias replays under Miri for i686, s390x and aarch64. Found F1 (open() on an exhausted context answered short inputs with OpenError), fixed in /repo 7e92e6f.",
         design_ref="DESIGN.md 6/C05, 7", note=TRUST),
     "C06": dict(
         technique="runtime monitoring: tamper oracle over recorded opens - any delivered (ct, tag, aad) that differs from what the sender produced must yield OpenError on all four opening interfaces",
@@ -56,11 +56,11 @@ CHECKS = {
         design_ref="DESIGN.md 6/C09", note=TRUST),
     "C10": dict(
         technique="runtime monitoring: exhaustive enumeration of the 14 small-order X25519 encodings in every role/mode/entry point, judged by a reference RFC 7748 ladder; sampled negatives",
-        text="The positive part (14 encodings x {pkR, enc, pkS} x 4 modes x setup/encap/decap/single-shot) is enumerated completely (evidence exhaustive: true for that part); negatives (neighbours, random strings) are sampled.",
+        text="The positive part (14 encodings x {pkR, enc, pkS} x 4 modes x setup/encap/decap/single-shot) is enumerated completely (evidence exhaustive: true for that part); negatives (neighbours, random strings, peers constructed so that the DH output is zero on chosen limbs/halves) are sampled; thorough repeats the enumeration on builds with target-cpu=native, opt-level s and 0, and the release build.",
         design_ref="DESIGN.md 6/C10", note=TRUST),
     "C11": dict(
         technique="runtime monitoring: export oracle - LabeledExpand recomputed in Python from the exporter secret the live context reports through a hook; purity/symmetry checks across recorded histories; panic observation for export-only suites",
-        text="Exploration: 192 suite/mode cells, both roles, exporter contexts up to 64 KiB, lengths around every bound (every L within 40 of 255*Nh; thorough: every L in 0..16400), exports interleaved with seals, opens and failed opens.",
+        text="Exploration: 192 suite/mode cells, both roles, exporter contexts up to 64 KiB, lengths around every bound (every L within 40 of 255*Nh; thorough: every L in 0..16400), exports interleaved with seals, opens and failed opens, after exhaustion, after 66 000 rejected opens and after every caught export-only panic; a panic=abort build of the driver runs each export-only seal/open form as the last call of its own process, which must die by SIGABRT with the library's panic message.",
         design_ref="DESIGN.md 6/C11", note=TRUST),
     "C12": dict(
         technique="runtime monitoring: serialization oracle - sizes vs the RFC table, round trips, re-serialization, exact error payloads and write_exact panic behaviour for every length 0..2*size+2",
@@ -80,14 +80,14 @@ CHECKS = {
         design_ref="DESIGN.md 6/C15", note=TRUST),
     "C16": dict(
         technique="runtime monitoring: memory-observing monitors - slot photographs around drop_in_place, liveness probe (in-place inversion of every sighting + behaviour comparison), transformed-copy needles, freed-memory residue seen by the driver's own allocator (also on the shipping build: guard off, release), plus a drop-ledger hook",
-        text="Exploration over suites/modes/roles and directed degenerate-looking secrets: shared secret, base nonce and exporter secret must be sighted in the object's own storage before the drop and wiped after; every live copy (one whose inversion changes the context's behaviour), raw or transformed, must be wiped; a context's heap block may hold nothing live when it is freed - checked on the build a user ships, where nothing inside the crate reads the wiped bytes; every setup must drop the temporary AEAD key and the shared secret with no nonzero residue.",
+        text="Exploration over suites/modes/roles and directed degenerate-looking secrets: shared secret, base nonce and exporter secret must be sighted in the object's own storage before the drop and wiped after; every live copy (one whose inversion changes the context's behaviour), raw or transformed, must be wiped; a context's heap block may hold nothing live when it is freed - checked on the build a user ships, where nothing inside the crate reads the wiped bytes; every setup must drop the temporary AEAD key and the shared secret with no nonzero residue; drops performed by the unwinder (object owned by a panicking frame) are judged the same way, on the alloc and std builds.",
         design_ref="DESIGN.md 6/C16", note=TRUST + " Only the object's own storage is inspected; stale copies in dead bytes carried by moves are counted, not judged."),
     "C17": dict(
         technique="runtime monitoring over configurations: crate tests, corpus replay of the driver vs the all-features build, API presence probes, examples and bench, guard on/off comparison, per feature subset",
-        text="Enumeration of feature subsets (quick: 14 subsets covering singles, defaults, all and KEM pairs; thorough: all 64, exhaustive: true): crate tests, corpus replay vs the all-features build (hostile and long inputs, sibling keys, error strings), API presence probes, examples under the required-features declared in the manifest, bench, guard on/off. Build outcomes are observed by running the compiler and labelled as such; the deciding observations are test runs and output comparisons.",
+        text="Enumeration of feature subsets (quick: 14 subsets covering singles, defaults, all and KEM pairs; thorough: all 64, exhaustive: true): crate tests, corpus replay vs the all-features build (hostile and long inputs, sibling keys, error strings), API presence probes, examples under the required-features declared in the manifest, bench, guard on/off; for every subset without std, cargo tree must show no dependency with its std feature on. Build outcomes are observed by running the compiler and labelled as such; the deciding observations are test runs and output comparisons.",
         design_ref="DESIGN.md 6/C17", note=TRUST, category="exploration"),
     "C18": dict(
         technique="runtime monitoring + race detection: per-session transcripts under permuted, interleaved, threaded, migrating placements on alloc, std and no-alloc builds compared with the sequential run; history probes; shared-reference exports, shared and reused key objects, decapsulation storms; hang analysis; ThreadSanitizer (thorough: Miri); compile-time Send+Sync probe",
-        text="Exploration of placements with schedule evidence (threads used, session switches, distinct global orders observed); a run whose parallel placements never overlapped is inconclusive.",
+        text="Exploration of placements with schedule evidence (threads used, session switches, distinct global orders observed); a run whose parallel placements never overlapped is inconclusive. Process-level dependencies: sessions in a driver that creates no thread, traced with strace (any clone with CLONE_THREAD is the library's), and a round trip made from a thread-local destructor while its thread exits.",
         design_ref="DESIGN.md 6/C18", note=TRUST),
 }
